@@ -156,6 +156,13 @@ def make_operation_document(rng: random.Random, version: str, *, with_security=F
             if version == "2.0" and "$ref" in str(schema):
                 continue
             add(location, name, schema, rng.random() < 0.6)
+    if three and rng.random() < 0.35:
+        # parameter described with `content` instead of `schema`
+        schema, _ = rng.choice(OBJECTS[:3] + ARRAYS[:2] + PRIMITIVES[:6])
+        location = rng.choice(["query", "header"])
+        name = "qc" if location == "query" else "X-C"
+        desc[location][name] = (schema, True)
+        params.append({"name": name, "in": location, "required": True, "content": {"application/json": {"schema": adapt(schema, version)}}})
     method = "get"
     op = {"responses": {"200": {"description": "ok"}}}
     if rng.random() < 0.7:
